@@ -23,7 +23,7 @@ class HStory:
     def __init__(self, pool=5, cap=4, max_list=2, layouts=gen.LAYOUTS, timing='dur',
                  kinds=spec.STORY_KINDS, init_max=None, rich=False, nmeta=3, packings=('one', 'per'),
                  pretty_msgs=False, replace_variant=0, no_expand=('StorySend',), bodies=None, explicit=None,
-                 edstart=True, send_bodies=None):
+                 edstart=True, send_bodies=None, pretty_states=False):
         self.pool = list(pool) if isinstance(pool, (list, tuple)) else gen.STORY_POOL[:pool]
         self.cap = cap
         self.max_list = max_list
@@ -43,6 +43,7 @@ class HStory:
         self.explicit = explicit      # per-ID explicit StoryStarted/StoryEnded ('s', 'e', 'se')
         self.edstart = edstart
         self.send_bodies = send_bodies
+        self.pretty_states = pretty_states   # initial running orders pretty-printed (whitespace text/tails everywhere)
 
     # -- content
     def story(self, sid, variant=0):
@@ -64,6 +65,8 @@ class HStory:
             for n in range(0, self.init_max + 1):
                 for ids in itertools.permutations(self.pool, n):
                     out.append(gen.ro_text([self.story(i) for i in ids], layout, meta))
+        if self.pretty_states:
+            out = [gen.prettify(t) for t in out]
         return out
 
     # -- menu
@@ -236,7 +239,7 @@ class HItem:
 
     def __init__(self, pool=5, cap=4, max_list=2, patterns=('plain', 'p-between', 'foreign'),
                  positions=('first', 'second'), kinds=spec.ITEM_KINDS, init_max=None, rich=False,
-                 packings=('one', 'per'), layout='before', pretty_msgs=False, timing='dur'):
+                 packings=('one', 'per'), layout='before', pretty_msgs=False, timing='dur', pretty_states=False):
         self.pool = list(pool) if isinstance(pool, (list, tuple)) else gen.ITEM_POOL[:pool]
         self.cap = cap
         self.max_list = max_list
@@ -249,6 +252,7 @@ class HItem:
         self.layout = layout
         self.pretty_msgs = pretty_msgs
         self.timing = timing
+        self.pretty_states = pretty_states
 
     def item(self, iid, variant=0):
         return gen.item_xml(iid, variant, owner=self.S1, rich=self.rich)
@@ -279,6 +283,8 @@ class HItem:
                         s1 = gen.story_xml(self.S1, 0, body=self.body(ids, pattern), timing=self.timing, rich=self.rich)
                         stories = [s1, decoy, other] if pos == 'first' else [decoy, s1, other] if pos == 'second' else [other, decoy, s1]
                         out.append(gen.ro_text(stories, self.layout, gen.meta_elems(2)))
+        if self.pretty_states:
+            out = [gen.prettify(t) for t in out]
         return out
 
     def menu(self, view, res):
